@@ -381,6 +381,12 @@ def c16(run, args):
     mb_ = multi(bfs)
     beh += mk(mb_[run.seed % 2::2] if quick else mb_, "multi", 0, 0, one_cfg=not quick) + mk(mb_[run.seed % 9::9], "multiord", 1, 0, one_cfg=not quick) + mk(multi(sim), "multisim", 0, 0)
     beh += mk(bfs5, "bfs5", 0, 0, one_cfg=True)
+    # (l) the listener is a Lua script with both after-hooks (its slow "stored" handler is still busy when the removal that
+    #     follows is announced): the script, too, must see every event once, one at a time, stored before deleted
+    lua = mk(bfs[run.seed % 5::5] + mb_[run.seed % 7::7], "lua", 0, 0, one_cfg=True)
+    for b in lua:
+        b["lua"] = True
+    beh += lua
     run.cov["samples"] = [bfs[len(bfs) // 3], sim[0][:12]] if bfs and sim else []
     replay_and_validate(run, vh, beh, "c16", "C16 after-events")
     # (c) removals racing each other: several clients remove / purge the same messages at the same moment (web UI against REST
@@ -423,6 +429,7 @@ def c16(run, args):
                        "a listener on both after-event brokers records every invocation with entry/exit stamps from one counter; at the end of each history TLC checks that the multiset of events "
                        "equals what the contract's state changes require (exactly one stored per entering, one deleted per leaving message), that no two invocations overlap, stored precedes deleted "
                        "per message, and stored events of one mailbox arrive in arrival order; in the ordering variants each invocation takes 1-2 ms so that the following operations emit while it runs; "
+                       "the same with a Lua script (after.message_stored / after.message_deleted, a slow stored handler) as the listener; "
                        "plus racing removals: 3-5 goroutines remove / purge the same three messages of one mailbox at the same moment (hundreds of runs per configuration): the history must "
                        "linearize and the 'deleted' events must be exactly one per message that left (LinTrace)")
     run.assumptions += ["quiescence: the history ends when no invocation started or finished for 5 ms", "size limit 4 KiB with messages of 1-3 KB so that a new message always survives its own delivery"]
